@@ -174,7 +174,8 @@ extra_passes = thorough_aux('props.c11', ('miri',))
 def dense_requests(cfg, rng, n, st):
     """dense digit-count pass: values with the maximal number of digits (and one fewer) in every string radix and a few slice radices — what a
     width-dependent buffer size or digit-count estimate has to cope with at this particular width"""
-    for r in list(range(2, 37)) + [37, 100, 128, 200, 255, 256]:
+    # every radix on types up to 1024 bits, a handful beyond (the debug build needs ~10 ms per conversion at 8192 bits)
+    for r in (list(range(2, 37)) + [37, 100, 128, 200, 255, 256]) if cfg.bits <= 1024 else (2, 3, 7, 10, 16, 36, 255, 256):
         cap = len(to_digits(cfg.mask, r))
         for v in (cfg.max, cfg.min if cfg.signed else cfg.max // 3, cfg.val((r ** (cap - 1)) & cfg.mask), cfg.val((r ** (cap - 1) - 1) & cfg.mask)):
             yield 'out', (v, r)
